@@ -261,7 +261,7 @@ func init() {
 	register(&Scenario{
 		Prop:  "C04",
 		Level: "exploration",
-		Rule:  "histories of first use, growth and same-size refresh with witness key sets of 1..3 keys (legacy Ed25519 and cosignature/v1, incl. both forms of one key), texts with extension lines, extra known/unknown/duplicate signature lines, stale and fake copies of the witness's own lines (capped below the note format's 100-line limit; the cap's reason is finding F1 under C08), clock jumps of 1 ms..30 days between updates and, under the scheduler, while an update is parked at a storage seam; results checked with the harness's own note verifier; non-trivial = an accepted refresh or growth after a clock jump was checked; distinct = distinct (path: first/growth/refresh, decoration, key set, jumped-inside?) tuples",
+		Rule:  "histories of first use, growth and same-size refresh with witness key sets of 1..3 keys (legacy Ed25519 and cosignature/v1, incl. both forms of one key), texts with extension lines, extra known/unknown/duplicate signature lines, stale and fake copies of the witness's own lines (capped below the note format's 100-line limit; the cap's reason is finding F1 under C08), clock jumps of 1 ms..30 days between updates and, under the scheduler, while an update is parked at a storage seam; in a tenth of the runs one witness key is out of order for a window of signing operations (the update must be refused as a whole); results checked with the harness's own note verifier; non-trivial = an accepted refresh or growth after a clock jump was checked; distinct = distinct (path: first/growth/refresh, decoration, key set, jumped-inside?) tuples",
 		Gen: func(r *Rng, tier string, n uint64) *Plan {
 			pf := Profile{MaxLogs: 2, ShareKeys: true, MinOps: 3, MaxOps: 12, Adversarial: 0.15, Mutations: 0.2, BigSizes: r.Chance(0.2), Reads: 0.15}
 			p := &Plan{Scenario: "W"}
@@ -295,6 +295,10 @@ func init() {
 				p.Ops = append(p.Ops, o)
 			}
 			p.Cfg.Extra = map[string]int64{"http_readback": 1}
+			if n%4 == 0 && r.Chance(0.4) {
+				// one of the witness's keys is out of order for a while
+				p.Cfg.Extra["signfail"], p.Cfg.Extra["signfail_len"], p.Cfg.Extra["signfail_key"] = int64(1+r.IntN(len(ops)+2)), int64(Pick(r, 1, 2, 3, 6, 1000)), int64(r.IntN(3))
+			}
 			if n%8 == 6 {
 				// several writers: judged on what each accepted update returned and on what is served at rest
 				p.Cfg.Extra = nil
@@ -492,6 +496,7 @@ func init() {
 				p.Ops = withTime
 				p.Cfg.Extra["probe_from"] = int64(len(withTime))
 			}
+			var rehearsals, probes []Op
 			for l := range p.Cfg.Logs {
 				k := r.Range(1, 3)
 				for i := 0; i < k; i++ {
@@ -513,9 +518,26 @@ func init() {
 							probe.M, probe.MV = "pad_to", uint64(Pick(r, 1024, 2048, 4096, 8192, 16384, 32768, 65536)-r.IntN(320))
 						}
 					}
-					p.Ops = append(p.Ops, probe)
+					if i == 0 && len(p.Cfg.Logs) > 1 && r.Chance(0.3) {
+						// the very bytes of this probe are first presented under another log's ID (and refused there): whatever the
+						// witness remembers about refused bytes must not stand in the way of the log they belong to
+						reh := probe
+						reh.M, reh.MV = "crosslog", r.Uint64()
+						if probe.M != "" {
+							probe.M, probe.MV = "", 0
+							reh.M, reh.MV = "crosslog", r.Uint64()
+						}
+						rehearsals = append(rehearsals, reh)
+					}
+					probes = append(probes, probe)
 				}
 			}
+			p.Ops = append(p.Ops, rehearsals...)
+			p.Cfg.Extra["probe_from"] = int64(len(p.Ops))
+			if _, ok := p.Cfg.Extra["tail_from"]; ok {
+				p.Cfg.Extra["tail_from"] = int64(len(p.Ops))
+			}
+			p.Ops = append(p.Ops, probes...)
 			return p
 		},
 		Run: func(t *testing.T, p *Plan) *Outcome {
